@@ -115,6 +115,7 @@ def gen_ops(rng, n, tier):
             c['tab'] = tab
         elif op == 'add':
             c['m'] = rng.randint(0, 5); c['samefeat'] = rng.random() < 0.7
+            c['perm'] = rng.random() < 0.3          # the same two feature names on both tracks, created in a different order
         else:
             c['a'] = rng.randint(-1, k + 1) * 1000 + rng.choice([0, 500]); c['b'] = rng.randint(-1, k + 1) * 1000 + rng.choice([0, 500])
         out.append(c)
@@ -141,9 +142,17 @@ def run_ops(case):
         t.removeObsList(list(case['tab']))
         return {'ids': ids_of(t), 'names': t.getListAnalyticalFeatures(), 'feat': [float(v) for v in t['f']] if t.size() else []}
     elif op == 'add':
-        t2 = mk([1000 * (100 + i) for i in range(case['m'])], ids=[100 + i for i in range(case['m'])], feat=case['samefeat'])
-        if case['m'] and not case['samefeat']:
-            t2.createAnalyticalFeature('g', 1.0)
+        ids2 = [100 + i for i in range(case['m'])]
+        if case.get('perm') and k and case['m']:
+            t2 = mk([1000 * (100 + i) for i in range(case['m'])], ids=ids2, feat=False)
+            t.createAnalyticalFeature('g', [-(100.0 + i) for i in range(k)])                 # t : f, g
+            t2.createAnalyticalFeature('g', [-(100.0 + i) for i in ids2])                     # t2: g, f
+            t2.createAnalyticalFeature('f', [100.0 + i for i in ids2])
+            names0 = t.getListAnalyticalFeatures()
+        else:
+            t2 = mk([1000 * (100 + i) for i in range(case['m'])], ids=ids2, feat=case['samefeat'])
+            if case['m'] and not case['samefeat']:
+                t2.createAnalyticalFeature('g', 1.0)
         r = t + t2
     else:
         def T(ms):
@@ -152,6 +161,8 @@ def run_ops(case):
     res = {'ids': ids_of(r), 'src': ids_of(t), 'names': r.getListAnalyticalFeatures(), 'names0': names0}
     if 'f' in res['names'] and r.size():
         res['feat'] = [float(v) for v in r['f']]
+    if 'g' in res['names'] and r.size() and op == 'add' and case.get('perm'):
+        res['featg'] = [float(v) for v in r['g']]
     return res
 
 
@@ -212,6 +223,8 @@ def oracle_ops(case, obs):
         return '%s did not carry the feature table over: %r' % (op, obs['names'])
     if 'feat' in obs and obs['feat'] != [100.0 + i for i in obs['ids']]:
         return '%s: feature values %r do not belong to the returned observations %r' % (op, obs['feat'], obs['ids'])
+    if 'featg' in obs and obs['featg'] != [-(100.0 + i) for i in obs['ids']]:
+        return '%s: values of feature g %r do not belong to the returned observations %r' % (op, obs['featg'], obs['ids'])
     return None
 
 
